@@ -8,6 +8,7 @@ MTUS = [576, 577, 1280, 1500, 1514, 4096, 9000, 9216]
 # every residue of (MTU - header) modulo the record sizes 6, 14 and 20 occurs in these two dense ranges:
 # "exactly fits", "one byte short", "one byte over" for station lists, Emit descriptors and QueryResp descriptors
 MTUS_TINY = [68, 69, 72, 100, 128, 150, 200, 205, 206, 207, 255, 256, 257, 300, 400, 500, 575]
+MTUS_HUGE = [32767 + 34, 32768 + 34, 65535, 65536, 65569, 65570, 65600, 65792, 131072, 1 << 20]      # loopback-class and beyond 16 bits
 MTUS_DENSE = list(range(576, 616)) + list(range(1486, 1526)) + list(range(9196, 9217))
 GENS = [0, 1, 0x00FF, 0xFF00, 0xFFFF, 0x1234]
 BYTEVALS = [0x00, 0x01, 0x7F, 0x80, 0xFF]
@@ -86,7 +87,7 @@ def rand_name(rng, maxlen=40, printable=False):
 def rand_cfg(rng, mtu=None, wifi=None, mac=None):
     if mtu is None:
         r = rng.random()
-        mtu = rng.choice(MTUS) if r < 0.5 else rng.choice(MTUS_DENSE) if r < 0.8 else rng.randint(576, 9216)
+        mtu = rng.choice(MTUS) if r < 0.5 else rng.choice(MTUS_DENSE) if r < 0.78 else rng.choice(MTUS_HUGE) if r < 0.8 else rng.randint(576, 9216)
     if wifi is None:
         wifi = rng.random() < 0.4
     cfg = dict(mtu=mtu, mac=mac or rand_mac(rng),
@@ -355,12 +356,19 @@ def pick_mtu(rng, common=(576, 1500, 9216)):
     r = rng.random()
     if r < 0.35:
         return rng.choice(common)
-    if r < 0.8:
+    if r < 0.77:
         return rng.choice(MTUS_DENSE)
+    if r < 0.8:
+        return rng.choice(MTUS_HUGE)
     return rng.randint(576, 9216)
 
 
 def cap_emit(mtu):
+    return max(0, min((mtu - 34) // 14, 2500))      # what the workloads put into one Emit (the harness logs 3000 transmits per input)
+
+
+def cap_emit_wire(mtu):
+    """how many descriptors an Emit of this MTU can really carry (the monitors' bound)"""
     return max(0, (mtu - 34) // 14)
 
 
